@@ -512,3 +512,55 @@ def inverse_matrix(h):
         h.check("M.X=I", h.eq(M.dot(X), _I(h, 4)))
     else:
         h.check("M.X=I", h.eq(M @ X, _I(h, 4), atol=1e-6))
+
+
+@bounded("C19", name="real-code:matrix-quaternion-round-trips-in-floating-point", note="rotations by angles at and within 1e-12..1e-3 of 0, pi/2 and pi about seeded axes, built with rotation_matrix (so they carry round-off): quaternion_from_matrix (both isprecise settings) returns a unit quaternion whose matrix is the input; euler_from_matrix / euler_matrix for all 24 conventions likewise")
+def float_round_trips(tier, seed):
+    import trimesh.transformations as tf
+
+    rng = rnp.random.default_rng(seed + 191)
+    cells = {}
+    cases = 0
+
+    def fail(key, detail=""):
+        c = cells.setdefault(key, {"what": key, "cell": key, "detail": str(detail)[:300], "count": 0})
+        c["count"] += 1
+
+    n_axes = 12 if tier == "quick" else 120
+    axes_ = [rnp.array(a, dtype=float) for a in ([1, 0, 0], [0, 1, 0], [0, 0, 1], [1, 1, 0], [1, 1, 1])] + [rng.normal(size=3) for _ in range(n_axes)]
+    deltas = [0.0, 1e-12, 1e-9, 1e-7, 1e-5, 1e-3]
+    for base in (0.0, math.pi / 2, math.pi):
+        for d in deltas:
+            for sgn in (1.0, -1.0):
+                for ax in axes_:
+                    ang = base + sgn * d
+                    M = tf.rotation_matrix(ang, ax)
+                    for precise in (True, False):
+                        cases += 1
+                        try:
+                            q = tf.quaternion_from_matrix(M, isprecise=precise)
+                            nrm = float(rnp.dot(q, q))
+                            if not rnp.isfinite(q).all() or abs(nrm - 1.0) > 1e-9:
+                                fail("quaternion_from_matrix[isprecise=%s]:not-a-unit-quaternion" % precise, "angle %r axis %s: |q|^2 = %r" % (ang, ax.tolist(), nrm))
+                                continue
+                            M2 = tf.quaternion_matrix(q)
+                            if float(rnp.abs(M2 - M).max()) > 1e-7:
+                                fail("quaternion_from_matrix[isprecise=%s]:matrix-not-recovered" % precise, "angle %r axis %s: max |d| %.3g" % (ang, ax.tolist(), float(rnp.abs(M2 - M).max())))
+                        except Exception as ex:  # noqa: BLE001
+                            fail("quaternion_from_matrix[isprecise=%s]:raised %s" % (precise, type(ex).__name__), ex)
+                    if d in (0.0, 1e-9, 1e-5):
+                        for conv in tf._AXES2TUPLE:
+                            cases += 1
+                            try:
+                                e = tf.euler_from_matrix(M, conv)
+                                M3 = tf.euler_matrix(*e, axes=conv)
+                                if float(rnp.abs(M3 - M).max()) > 1e-6:
+                                    fail("euler_from_matrix[%s]:matrix-not-recovered" % conv, "angle %r axis %s: max |d| %.3g" % (ang, ax.tolist(), float(rnp.abs(M3 - M).max())))
+                            except Exception as ex:  # noqa: BLE001
+                                fail("euler_from_matrix[%s]:raised %s" % (conv, type(ex).__name__), ex)
+    fails = sorted(cells.values(), key=lambda c: c["cell"])
+    from contracts import common
+
+    r = common.result(cases, cases, fails, "3 base angles x 6 offsets x 2 signs x %d axes x (2 quaternion settings + 24 Euler conventions at 3 offsets)" % len(axes_), exhaustive=False)
+    r["failures"] = fails
+    return r
